@@ -47,6 +47,7 @@ class Runaway(BaseException):
 
 
 MAX_CALLS = 20000
+DYN_BASE = 100          # = Dispatch.opaqueBase in the model
 
 
 class Runner:
@@ -56,7 +57,23 @@ class Runner:
         from param.parameterized import batch_call_watchers, discard_events
         self.param = param
         self.batch_ctx, self.discard_ctx = batch_call_watchers, discard_events
+        if case.get('legacy_batch'):
+            # the deprecated spelling `batch_watch(obj)` = the internal context manager with its defaults
+            # (enable=True, run=True): must behave like batch_call_watchers
+            import contextlib, warnings
+            from param.parameterized import batch_watch
+
+            @contextlib.contextmanager
+            def legacy(obj):
+                with warnings.catch_warnings():
+                    warnings.simplefilter('ignore')
+                    cm = batch_watch(obj)
+                with cm:
+                    yield
+            self.batch_ctx = legacy
         self.case = case
+        self.dyn = {DYN_BASE + k: (lambda k=k: k) for k in range(4)}
+        self.dyn_code = {id(f): c for c, f in self.dyn.items()}
         n = len(case['bounds'])
         self.names = [f'p{i}' for i in range(n)]
         self.events = set(case.get('events', []))
@@ -124,11 +141,35 @@ class Runner:
     def _ids(self):
         return {id(w): k for k, w in self.wall}
 
+    def _stored(self, i):
+        """the object the parameter holds (not what reading it produces)"""
+        nm = self.names[i]
+        if self.on_class:
+            return self.obj.param[nm].default
+        vals = self.obj._param__private.values
+        return vals[nm] if nm in vals else type(self.obj).param[nm].default
+
+    def _enc(self, x):
+        """model value of a Python value: a callable held by a (Dynamic) numeric parameter is value 100+k"""
+        if callable(x):
+            return self.dyn_code.get(id(x), -77)
+        return int(x)
+
     def _val(self, i):
-        return int(getattr(self.obj, self.names[i]))
+        # what the attribute reads must agree with what is stored: the stored number, or - for a callable held
+        # by a Dynamic parameter (model value 100+k) - the number k it produces
+        got = getattr(self.obj, self.names[i])
+        st = self._stored(i)
+        if callable(st):
+            code = self._enc(st)
+            return code if got == code - DYN_BASE and not callable(got) else -78
+        return int(got) if got is st or got == st else -79
 
     def _py(self, i, v):
-        """the Python value assigned for model value v: Event parameters hold booleans"""
+        """the Python value assigned for model value v: Event parameters hold booleans, values from 100 on
+        are callables (a fixed function object per value, producing v - 100)"""
+        if i not in self.events and isinstance(v, int) and v >= DYN_BASE:
+            return self.dyn[v]
         return bool(v) if (i in self.events and v in (0, 1)) else v
 
     def world(self):
@@ -139,7 +180,7 @@ class Runner:
         regs = [k for k, w in self.wall
                 if any(any(x is w for x in self._wlist(n, sl)) for n in self.names for sl in (0, 1, 2))]
         return {'vals': [self._val(i) for i in range(len(self.names))], 'batch': b, 'trigger': t,
-                'events': [[self.names.index(e.name), int(e.old), int(e.new), WHAT[e.what]] for e in p._events],
+                'events': [[self.names.index(e.name), self._enc(e.old), self._enc(e.new), WHAT[e.what]] for e in p._events],
                 'slots': [[i, k, int(getattr(self.obj.param[n], SLOTS[k]) or 0) if k in self._slots_of(i) else 0]
                           for i, n in enumerate(self.names) for k in (1, 2)],
                 'queued': [ids.get(id(w), -1) for w in p._state_watchers],
@@ -158,8 +199,8 @@ class Runner:
                 caller = sys._getframe(2).f_code.co_name if sys._getframe(1).f_code.co_name == '_execute_watcher' else '?'
                 via = {'_call_watcher': False, '_batch_call_watchers': True}.get(caller)
                 # 'kwargs' mode (watch_values): the callback only sees name=new
-                evs = [[runner.names.index(e.name), int(e.old), int(e.new), e.type, WHAT[e.what]] for e in events] + \
-                      [[runner.names.index(n), int(v), int(v), 'kw', 0] for n, v in kwargs.items()]
+                evs = [[runner.names.index(e.name), runner._enc(e.old), runner._enc(e.new), e.type, WHAT[e.what]] for e in events] + \
+                      [[runner.names.index(n), runner._enc(v), runner._enc(v), 'kw', 0] for n, v in kwargs.items()]
                 node = {'t': 'call', 'w': cbid,
                         'evs': evs,
                         'flush': via, 'snap': [runner._val(i) for i in range(len(runner.names))], 'ch': [], 'res': None}
@@ -251,7 +292,7 @@ class Runner:
                     self.run_stmts(s['body'])
                 except BaseException as e:
                     exc = e
-                self._keys(node, [(self.names.index(n), int(v)) for n, v in restore.items()], self._flags()[1])
+                self._keys(node, [(self.names.index(n), self._enc(v)) for n, v in restore.items()], self._flags()[1])
                 ctx.__exit__(type(exc) if exc else None, exc, None)
                 if exc is not None:
                     raise exc
@@ -401,6 +442,8 @@ def gen_case(rng, prop, max_params=4, max_watchers=5, faults=False, size=8):
     # the class default is what both instances read until they are assigned, one object's statement would
     # then change the other's values, and the two objects are modelled as independent worlds
     second = level == 'instance' and not shared and rng.random() < 0.35
+    # callables as values of the numeric parameters (model values from DYN_BASE on) in a quarter of the cases
+    dyn_ok = rng.random() < 0.25
 
     def mk_watcher(body_idx, rank_limit=None):
         ps = rng.sample(range(n), rng.randint(1, min(n, 3)))
@@ -452,7 +495,13 @@ def gen_case(rng, prop, max_params=4, max_watchers=5, faults=False, size=8):
                 return {'s': 'try', 'body': []}
             k = 'set'
         def pv(i):
-            return rng.choice([1, 1, 1, 0, 7]) if i in events else value()
+            if i in events:
+                return rng.choice([1, 1, 1, 0, 7])
+            if dyn_ok and bounds[i] == [None, None] and rng.random() < 0.15:
+                # a callable held by the (Dynamic) numeric parameter: old/new must be the stored objects, not the
+                # numbers they produce, and the changes-only filter never finds two callables equal
+                return DYN_BASE + rng.randrange(3)
+            return value()
         if k == 'clsSet':
             # any ordinary parameter (nothing is dispatched on the instance, so no rank discipline); valid values only
             p = rng.choice([i for i in range(n) if i not in events])
@@ -543,6 +592,15 @@ def gen_case(rng, prop, max_params=4, max_watchers=5, faults=False, size=8):
                 fix(st['body'], j)
     for j, b in enumerate(bodies):
         fix(b, j)
+    if faults and rng.random() < 0.12:
+        # a *queued* callback that assigns (so that events of its own are pending) and then raises - also a
+        # BaseException: what the failing flush round has queued must not stay behind (seeded C05-rt3)
+        users = [w for w in watchers if w['body'] < nb and ranks[w['body']] > 0 and w['id'] not in state['shared']]
+        if users:
+            w = rng.choice(users)
+            w['queued'] = True
+            bodies[w['body']] = bodies[w['body']] + [{'s': 'set', 'p': rng.randrange(ranks[w['body']]), 'v': value()},
+                                                     {'s': rng.choice(['raise', 'raiseBase'])}]
     if rng.random() < 0.12:
         # several watchers of one (parameter, what) whose callbacks add and remove watchers of that same
         # list while it is being dispatched (one-shot watchers, self-replacing watchers …)
@@ -618,6 +676,8 @@ def gen_case(rng, prop, max_params=4, max_watchers=5, faults=False, size=8):
                 no_shared_unwatch(st['body'])
     for l in [program] + bodies + extra.get('others', []):
         no_shared_unwatch(l)
+    if rng.random() < 0.08:
+        extra['legacy_batch'] = True
     return {**extra, 'prop': prop, 'level': level, 'shared': shared, 'inherit': inherit, 'events': events, 'bounds': bounds, 'init': init, 'watchers': watchers,
             'bodies': bodies, 'program': program}
 
@@ -690,6 +750,11 @@ def tags(case, impl):
                         t.append('call:raised')
                 else:
                     t.append(f'stmt:{it["k"]}' + (':batched' if it['b'] else '') + ('' if it['res'] == 'ok' else ':raised'))
+                    if it['k'] in ('set', 'key') and (it.get('new', 0) >= DYN_BASE or it.get('old', 0) >= DYN_BASE):
+                        t.append('value:callable')
+    for k in ('legacy_batch', 'shared', 'inherit', 'others'):
+        if case.get(k):
+            t.append('case:' + k)
     return t
 
 
